@@ -93,24 +93,42 @@ def percentile_linear(vals, q):
     return v[lo] + (v[hi] - v[lo]) * frac
 
 
+def lookback_counts(n, lookback):
+    """ Acceptable numbers of most-recent hits: floor(n*lookback/100), in exact rational arithmetic on the
+    parameter value and as the plain float expression (they differ only for non-representable lookbacks). """
+    from fractions import Fraction
+    ks = {int(n * lookback / 100)}
+    try:
+        ks.add(math.floor(n * Fraction(lookback) / 100))
+    except (TypeError, ValueError):
+        pass
+    return sorted(ks)
+
+
 def base_interval(members, lookback, perc):
     """ members: list of (dt, height). Returns (lo, hi, k, n): the interval of acceptable bases.
     The most recent k = floor(n*lookback/100) hits are used; ties in dt at the cut make the
     choice ambiguous, hence an interval. k == 0 -> the code's slice [-0:] takes everything. """
     n = len(members)
-    k = int(n * lookback / 100)
-    if k <= 0 or k >= n:
-        hs = [m[1] for m in members]
-        b = percentile_linear(hs, perc)
-        return b, b, k, n
-    srt = sorted(members, key=lambda m: m[0])
-    cut_dt = srt[n - k][0]
-    later = [m[1] for m in srt if m[0] > cut_dt]
-    tied = sorted(m[1] for m in srt if m[0] == cut_dt)
-    need = k - len(later)
-    lo = percentile_linear(later + tied[:need], perc)
-    hi = percentile_linear(later + tied[len(tied) - need:], perc)
-    return min(lo, hi), max(lo, hi), k, n
+    los, his = [], []
+    ks = lookback_counts(n, lookback)
+    for k in ks:
+        if k <= 0 or k >= n:
+            hs = [m[1] for m in members]
+            b = percentile_linear(hs, perc)
+            los.append(b)
+            his.append(b)
+            continue
+        srt = sorted(members, key=lambda m: m[0])
+        cut_dt = srt[n - k][0]
+        later = [m[1] for m in srt if m[0] > cut_dt]
+        tied = sorted(m[1] for m in srt if m[0] == cut_dt)
+        need = k - len(later)
+        lo = percentile_linear(later + tied[:need], perc)
+        hi = percentile_linear(later + tied[len(tied) - need:], perc)
+        los.append(min(lo, hi))
+        his.append(max(lo, hi))
+    return min(los), max(his), ks[0], n
 
 
 def min_sep_for(height, lims, vals):
